@@ -107,6 +107,34 @@ Theorem snip_lines : forall (t : text) (width h : Z) (e r : text),
 Proof. exact snip_lines_fact. Qed.
 Print Assumptions snip_lines.
 
+(* ---- the oracles the harness applies to the IMPLEMENTATION's output hold of the model's output
+   for every well-formed styled text, so a false verdict on the code's output is a violation ---- *)
+From Servitor Require Import Term Oracles.
+From Servitor.Facts Require Import OracleFacts.
+
+(* the boolean well-formedness test used to select oracle inputs is sound *)
+Theorem wf_text_b_sound :
+  forall t : text, wf_text_b t = true -> wf_cells (expand t).
+Proof. exact wf_text_b_sound_fact. Qed.
+Print Assumptions wf_text_b_sound.
+
+(* printed-text level: every printed line re-scans to at most w cells and the visible cells are the input's *)
+Theorem wrap_ok_model :
+  forall (t : text) (w : Z), 1 <= w -> wf_cells (expand t) -> wrap_ok w t (wrap t w) = true.
+Proof. exact wrap_ok_model_fact. Qed.
+Print Assumptions wrap_ok_model.
+
+Theorem dumb_ok_model :
+  forall (t : text) (w : Z),
+  1 <= w -> wf_cells (expand t) -> dumb_ok w t (dumb_wrap t w) = true.
+Proof. exact dumb_ok_model_fact. Qed.
+Print Assumptions dumb_ok_model.
+
+Theorem pad_ok_model :
+  forall (t : text) (len : Z), wf_cells (expand t) -> pad_ok len t (pad t len) = true.
+Proof. exact pad_ok_model_fact. Qed.
+Print Assumptions pad_ok_model.
+
 (* Non-vacuity: a styled text that is actually wrapped *)
 Example c13_example :
   map (map letter) (wrap_cells 3 (expand [97;98;32;99;100;101;102;10;103]%N))
